@@ -775,9 +775,12 @@ func (e *Executor) Pending(ctx context.Context) ([]File, error) {
 		}); first != -1 && first < idx && e.order != ExecOrderLinearSkip {
 			var skipped []File
 			for _, f := range migrations[first:idx] {
-				if _, found := slices.BinarySearchFunc(revs, f, func(r *Revision, f File) int {
+				// A file is out of order if it was never applied, or if it was applied only partially:
+				// a file executed out of order (non-linear) that failed partway is not the last revision,
+				// and must not be considered applied. Execute continues it at the correct statement.
+				if i, found := slices.BinarySearchFunc(revs, f, func(r *Revision, f File) int {
 					return strings.Compare(r.Version, f.Version())
-				}); !found {
+				}); !found || revs[i].partial() {
 					skipped = append(skipped, f)
 				}
 			}
